@@ -55,6 +55,7 @@ Valid(k) ==
 Viol(k) ==
   << <<Field(Nm(k), "Nope")>>,                                                                     \* R2
     <<Field("f1", "char")>>,                                                                      \* R3 when f1 is in scope
+    <<[I0 EXCEPT !.tag = "length", !.name = Ln(k), !.type = "char"], Field(Ln(k), "char")>>,       \* R3: the name of a <length> redeclared
     <<[Field(Nm(k), "string") EXCEPT !.len = Ref("nolen")]>>,                                      \* R4
     <<[I0 EXCEPT !.tag = "length", !.name = Ln(k), !.type = "char"], [Field(Nm(k), "string") EXCEPT !.len = Ref(Ln(k))],
       [Field("g" \o ToString(k), "string") EXCEPT !.len = Ref(Ln(k))]>>,                           \* R5
